@@ -90,7 +90,8 @@ Inductive event :=
   | EvTopicOp (o : oid) (c : nat) (k : topk) (topic x : nat)
   | EvTopicRet (o : oid) (ok : bool)
   | EvBcastEnd (a : aid) (ty : nat)
-  | EvIdentity (a : aid) (same : bool).
+  | EvIdentity (a : aid) (same : bool)
+  | EvAbandon (o : oid).
 
 (** * Decoding a line of numbers *)
 Definition dec_bool (n : nat) : bool := negb (Nat.eqb n 0).
@@ -405,6 +406,11 @@ Definition decode (l : list nat) : option event :=
     | 48 =>
       match args with
       | [a; same] => Some (EvIdentity a (dec_bool same))
+      | _ => None
+      end
+    | 49 =>
+      match args with
+      | [o] => Some (EvAbandon o)
       | _ => None
       end
     | _ => None
